@@ -17,6 +17,7 @@ use std::path::{Path, PathBuf};
 
 pub struct C18;
 
+const NCERTS: usize = 8;
 const HOST_OK: &str = "machine.example";
 const URI_OK: &str = "urn:sim:client";
 
@@ -39,6 +40,8 @@ fn cert_specs() -> Vec<CertSpec> {
         CertSpec { bits: 1024, key: "a", from_days: -100, to_days: 1000, host: HOST_OK, uri: URI_OK }, // short key
         CertSpec { bits: 2048, key: "a", from_days: -100, to_days: 1000, host: "other.example", uri: "urn:sim:other" }, // wrong host / uri (same key as 0)
         CertSpec { bits: 4096, key: "a", from_days: -100, to_days: 1000, host: HOST_OK, uri: URI_OK },
+        CertSpec { bits: 2048, key: "b", from_days: -100, to_days: 1000, host: HOST_OK, uri: "urn:sim:other" }, // right host, wrong uri
+        CertSpec { bits: 2048, key: "c", from_days: -100, to_days: 1000, host: "other.example", uri: URI_OK }, // wrong host, right uri
     ]
 }
 
@@ -47,9 +50,9 @@ fn epoch_s() -> i64 {
 }
 
 fn build_cert(i: usize) -> X509 {
-    let s = &cert_specs()[i % 6];
+    let s = &cert_specs()[i % NCERTS];
     let id = wire::identity(s.bits, s.key);
-    wire::make_cert(&id.pem, &format!("cert{}", i % 6), s.uri, &[s.host, "10.0.0.1"], epoch_s() + s.from_days * 86400, epoch_s() + s.to_days * 86400, 5000 + i as u32)
+    wire::make_cert(&id.pem, &format!("cert{}", i % NCERTS), s.uri, &[s.host, "10.0.0.1"], epoch_s() + s.from_days * 86400, epoch_s() + s.to_days * 86400, 5000 + i as u32)
 }
 
 fn valid_key_length(policy: SecurityPolicy, bits: u32) -> bool {
@@ -85,7 +88,7 @@ impl Scenario for C18 {
             level: "fault_enumeration",
             exhaustive: false,
             layer: "L1 + disk node (scratch PKI directory per run) + simulated wall clock",
-            rule: "enumerated decision table: 6 certificates (valid / expired / not yet valid / 1024-bit / wrong host+URI / 4096-bit) x store state {absent, trusted identical, trusted different bytes, rejected, both} x trust-unknown x skip-verify x check-time x 3 policies x host/URI given or not (3456 combinations, one validation each), then seeded histories of 2-12 steps mixing validations with administrator moves, disk faults on stored copies and directories, and clock jumps across the validity window. Oracle: Good => not in rejected/, a byte-identical (DER-equal) copy in trusted/, key length valid for the policy, and unless skip-verify: inside the validity at the simulated time (when check-time), host and URI match; unknown and untrusted => present in rejected/ afterwards; accepted => absent from rejected/. non-trivial = a disk fault, clock jump or administrator move preceded the validation, or the table row is not the plain accept row; distinct = (configuration, verdict class) hash.",
+            rule: "enumerated decision table: 8 certificates (valid / expired / not yet valid / 1024-bit / wrong host+URI / 4096-bit / wrong URI only / wrong host only) x store state {absent, trusted identical, trusted different bytes, rejected, both} x trust-unknown x skip-verify x check-time x 3 policies x host/URI given or not x 2 entry points (9216 combinations, one validation each), then seeded histories of 2-12 steps mixing validations with administrator moves, disk faults on stored copies and directories, and clock jumps across the validity window. Oracle: Good => not in rejected/, a byte-identical (DER-equal) copy in trusted/, key length valid for the policy, and unless skip-verify: inside the validity at the simulated time (when check-time), host and URI match; unknown and untrusted => present in rejected/ afterwards; accepted => absent from rejected/. non-trivial = a disk fault, clock jump or administrator move preceded the validation, or the table row is not the plain accept row; distinct = (configuration, verdict class) hash.",
             real: vec!["CertificateStore::validate_or_reject_application_instance_cert / validate_application_instance_cert", "ensure_cert_and_file_are_the_same, store_rejected_cert, store_trusted_cert, read_cert", "X509 time / host name / application URI / key length checks", "std::fs on a real scratch directory"],
             stubbed: vec!["wall clock (verif::clock seam, fixed mode)"],
             assumptions: vec!["runs as root, so permission-bit faults are not available and not claimed"],
@@ -93,13 +96,13 @@ impl Scenario for C18 {
         }
     }
     fn runs(&self, tier: Tier) -> u64 {
-        3456 + if tier == Tier::Thorough { 40_000 } else { 1500 }
+        9216 + if tier == Tier::Thorough { 40_000 } else { 1500 }
     }
     fn gen(&self, seed: u64, run: u64, tier: Tier) -> Value {
-        if run < 3456 {
+        if run < 9216 {
             let mut r = run;
-            let cert = r % 6;
-            r /= 6;
+            let cert = r % 8;
+            r /= 8;
             let state = r % 6; // 0 absent, 1 trusted identical, 2 trusted different bytes, 3 rejected, 4 both, 5 trusted + rejected different
             r /= 6;
             let trust_unknown = r % 2 == 1;
@@ -111,10 +114,12 @@ impl Scenario for C18 {
             let policy = ["Basic128Rsa15", "Basic256Sha256", "Aes256-Sha256-RsaPss"][(r % 3) as usize];
             r /= 3;
             let ident = r % 4; // host / uri given?
+            r /= 4;
+            let inner = r % 2 == 1; // which entry point
             let mut steps = vec![json!({"op": "flags", "trust_unknown": trust_unknown, "skip_verify": skip_verify, "check_time": check_time})];
             match state {
                 1 => steps.push(json!({"op": "admin_put", "cert": cert, "dir": "trusted"})),
-                2 => steps.push(json!({"op": "admin_put_as", "cert": (cert + 1) % 6, "name_of": cert, "dir": "trusted"})),
+                2 => steps.push(json!({"op": "admin_put_as", "cert": (cert + 1) % 8, "name_of": cert, "dir": "trusted"})),
                 3 => steps.push(json!({"op": "admin_put", "cert": cert, "dir": "rejected"})),
                 4 => {
                     steps.push(json!({"op": "admin_put", "cert": cert, "dir": "trusted"}));
@@ -122,11 +127,11 @@ impl Scenario for C18 {
                 }
                 5 => {
                     steps.push(json!({"op": "admin_put", "cert": cert, "dir": "trusted"}));
-                    steps.push(json!({"op": "admin_put_as", "cert": (cert + 2) % 6, "name_of": cert, "dir": "rejected"}));
+                    steps.push(json!({"op": "admin_put_as", "cert": (cert + 2) % 8, "name_of": cert, "dir": "rejected"}));
                 }
                 _ => {}
             }
-            steps.push(json!({"op": "validate", "cert": cert, "policy": policy, "host": ident & 1 == 1, "uri": ident & 2 == 2}));
+            steps.push(json!({"op": "validate", "cert": cert, "policy": policy, "host": ident & 1 == 1, "uri": ident & 2 == 2, "inner": inner}));
             return json!({"steps": steps});
         }
         let mut rng = Rng::new(crate::framework::run_seed(seed, "C18", run));
@@ -136,15 +141,15 @@ impl Scenario for C18 {
         let mut present: Vec<u64> = Vec::new();
         if rng.chance(0.75) {
             for _ in 0..rng.urange(1, 3) {
-                let c = rng.below(6);
+                let c = rng.below(8);
                 steps.push(json!({"op": "admin_put", "cert": c, "dir": "trusted"}));
                 present.push(c);
             }
         }
         for _ in 0..n {
-            let cert = if !present.is_empty() && rng.chance(0.7) { *rng.pick(&present) } else { rng.below(6) };
+            let cert = if !present.is_empty() && rng.chance(0.7) { *rng.pick(&present) } else { rng.below(8) };
             match rng.below(14) {
-                0..=5 => steps.push(json!({"op": "validate", "cert": cert, "policy": *rng.pick(&["Basic128Rsa15", "Basic256", "Basic256Sha256", "Aes128-Sha256-RsaOaep", "Aes256-Sha256-RsaPss"]), "host": rng.chance(0.5), "uri": rng.chance(0.5), "wrong_ident": rng.chance(0.15)})),
+                0..=5 => steps.push(json!({"op": "validate", "cert": cert, "policy": *rng.pick(&["Basic128Rsa15", "Basic256", "Basic256Sha256", "Aes128-Sha256-RsaOaep", "Aes256-Sha256-RsaPss"]), "host": rng.chance(0.5), "uri": rng.chance(0.5), "wrong_ident": rng.chance(0.15), "inner": rng.chance(0.3)})),
                 6 => steps.push(json!({"op": "admin_move", "cert": cert})),
                 7 => steps.push(json!({"op": "admin_put", "cert": cert, "dir": *rng.pick(&["trusted", "rejected"])})),
                 8 => steps.push(json!({"op": "admin_delete", "cert": cert, "dir": *rng.pick(&["trusted", "rejected"])})),
@@ -167,7 +172,7 @@ impl Scenario for C18 {
         let (mut trust_unknown, mut skip_verify, mut check_time) = (false, false, true);
         let mut now_days: i64 = 0;
         crate::hooks::set_wall_us(crate::hooks::EPOCH_US);
-        let certs: Vec<X509> = (0..6).map(build_cert).collect();
+        let certs: Vec<X509> = (0..NCERTS).map(build_cert).collect();
         let names: Vec<String> = certs.iter().map(CertificateStore::cert_file_name).collect();
         let ders: Vec<Vec<u8>> = certs.iter().map(|c| c.to_der().unwrap_or_default()).collect();
         let specs = cert_specs();
@@ -175,7 +180,7 @@ impl Scenario for C18 {
         let mut disturbed = false;
         for (i, s) in steps.iter().enumerate() {
             ctx.step(i);
-            let ci = (s["cert"].as_u64().unwrap_or(0) as usize) % 6;
+            let ci = (s["cert"].as_u64().unwrap_or(0) as usize) % NCERTS;
             let dir = if s["dir"] == "rejected" { disk.rejected() } else { disk.trusted() };
             match s["op"].as_str().unwrap_or("") {
                 "flags" => {
@@ -193,7 +198,7 @@ impl Scenario for C18 {
                 }
                 "admin_put_as" => {
                     // another certificate's bytes under this certificate's file name
-                    let ni = (s["name_of"].as_u64().unwrap_or(0) as usize) % 6;
+                    let ni = (s["name_of"].as_u64().unwrap_or(0) as usize) % NCERTS;
                     let _ = std::fs::write(dir.join(&names[ni]), &ders[ci]);
                     ctx.fault("replace_with_other_cert");
                     disturbed = true;
@@ -224,7 +229,7 @@ impl Scenario for C18 {
                                 ctx.fault("zero_file");
                             }
                             "replace" => {
-                                bytes = ders[(ci + 1) % 6].clone();
+                                bytes = ders[(ci + 1) % NCERTS].clone();
                                 ctx.fault("replace_with_other_cert");
                             }
                             _ => {
@@ -274,7 +279,12 @@ impl Scenario for C18 {
                     let trusted_before = disk.read(&disk.trusted(), &names[ci]);
                     let rejected_dir_ok = disk.rejected().is_dir();
                     let trusted_dir_ok = disk.trusted().is_dir();
-                    let verdict = store.validate_or_reject_application_instance_cert(&certs[ci], policy, host, uri);
+                    // either entry point: the rejecting wrapper or the plain validation
+                    let verdict = if s["inner"].as_bool().unwrap_or(false) {
+                        store.validate_application_instance_cert(&certs[ci], policy, host, uri)
+                    } else {
+                        store.validate_or_reject_application_instance_cert(&certs[ci], policy, host, uri)
+                    };
                     // state after
                     let in_rejected_after = disk.rejected().join(&names[ci]).exists();
                     let trusted_after = disk.read(&disk.trusted(), &names[ci]);
